@@ -514,6 +514,17 @@ def r08_6(ctx, rep):
         v = al.ast.targets[0].id
         apps = [x for x in cfg.stmts() if any(isinstance(c.func, ast.Attribute) and c.func.attr in ("append", "insert") and norm(c.func.value).endswith(".arguments")
                                                  and any(norm(a) == v for a in c.args) for c in calls(x.ast))]
+        # ... or the argument list is given to the constructor: `<symbol>.class_modification = ClassModification(arguments=[v])`
+        for x in cfg.stmts():
+            if isinstance(x.ast, ast.Assign) and isinstance(x.ast.value, ast.Call) and (call_name(x.ast.value) or "").endswith("ClassModification") \
+                    and any(k.arg == "arguments" and isinstance(k.value, ast.List) and any(norm(e) == v for e in k.value.elts) for k in x.ast.value.keywords):
+                tgt = x.ast.targets[0]
+                if norm(tgt).endswith(".class_modification"):
+                    apps.append(x)
+                elif isinstance(tgt, ast.Name):
+                    attach = [y for y in cfg.stmts() if isinstance(y.ast, ast.Assign) and norm(y.ast.value) == tgt.id and norm(y.ast.targets[0]).endswith(".class_modification")]
+                    if attach and cfg.must_pass(x.id, cfg.exit, {y.id for y in attach}) is None:
+                        apps.append(x)
         bad = cfg.must_pass(al.id, cfg.exit, {x.id for x in apps}) if apps else [al.id]
         rep.ob(R, site, "the value argument reaches the symbol's modification list on every path", bad is None,
                "after `%s` a path leaves the declaration without appending it to <symbol>.class_modification.arguments: the declared value "
